@@ -278,11 +278,13 @@ func c03Spaces(c *fw.Ctx) {
 			}
 		})
 
-	c.Space("via-pointer", "PackDomainName with a compression map: a base name of 150..253 wire octets (its octets plain, backslashes, dots or NULs — the last three need escapes in the text) is packed first, then one more label of 1..63 octets in front of it (total 245..262): the second call must succeed exactly when the expanded name is ≤ 255 octets, and what it emits must be accepted by UnpackDomainName with the right labels; non-trivial: total ≥ 250", true,
+	c.Space("via-pointer", "PackDomainName with a compression map: a base name of 150..253 wire octets (its octets plain, backslashes, dots or NULs — the last three need escapes in the text —, also with the first label of one kind and the others of another) is packed first, then one more label of 1..63 octets in front of it (total 245..262): the second call must succeed exactly when the expanded name is ≤ 255 octets, and what it emits must be accepted by UnpackDomainName with the right labels; non-trivial: total ≥ 250", true,
 		func(emit func(func(*fw.R))) {
 			for total := 245; total <= 262; total++ {
 				for front := 1; front <= 63; front++ {
-					for _, fill := range []byte{'b', '\\', '.', 0} { // octets of the base name: plain, and three kinds that need an escape in the text
+					// octets of the base name's first label and of its other labels: plain, and three kinds that need an escape in the
+				// text; mixed, so that the escapes lie only behind (or only in) the first label of what the pointer replaces
+				for _, fill := range [][2]byte{{'b', 'b'}, {'\\', '\\'}, {'.', '.'}, {0, 0}, {'b', 0}, {'b', '\\'}, {'b', '.'}, {0, 'b'}, {'.', 'b'}} {
 						total, front, fill := total, front, fill
 						emit(func(r *fw.R) {
 							baseLen := total - (front + 1) // wire length of the base name incl. root
@@ -302,7 +304,11 @@ func c03Spaces(c *fw.Ctx) {
 								if n == 1 { // cannot have a zero-length label: borrow one octet
 									return
 								}
-								base = append(base, bytes.Repeat([]byte{fill}, n-1))
+								f := fill[1]
+							if len(base) == 0 {
+								f = fill[0]
+							}
+							base = append(base, bytes.Repeat([]byte{f}, n-1))
 								left -= n
 							}
 							long := append([][]byte{bytes.Repeat([]byte{'f'}, front)}, base...)
